@@ -14,11 +14,11 @@ View == <<i, ubp, ncmd>>
 
 Init == i = 0 /\ ubp = {} /\ ncmd = 0 /\ hist = <<>>
 
-Log(c) == hist' = Append(hist, c) /\ ncmd' = ncmd + 1
+Log(c) == hist' = Append(hist, c @@ [at |-> i']) /\ ncmd' = ncmd + 1
 Break(a)  == /\ a \notin ubp /\ Cardinality(ubp) < MaxBps /\ i # Exited
-             /\ ubp' = ubp \cup {a} /\ Log([cmd |-> "break_addr", addr |-> a]) /\ UNCHANGED i
+             /\ ubp' = ubp \cup {a} /\ UNCHANGED i /\ Log([cmd |-> "break_addr", addr |-> a])
 Remove(a) == /\ a \in ubp /\ i # Exited
-             /\ ubp' = ubp \ {a} /\ Log([cmd |-> "remove_addr", addr |-> a]) /\ UNCHANGED i
+             /\ ubp' = ubp \ {a} /\ UNCHANGED i /\ Log([cmd |-> "remove_addr", addr |-> a])
 Start     == /\ i = 0 /\ i' = RefContinue(0, ubp) /\ Log([cmd |-> "start"]) /\ UNCHANGED ubp
 Continue  == /\ i \in 1..N /\ i' = RefContinue(i, ubp) /\ Log([cmd |-> "continue"]) /\ UNCHANGED ubp
 StepCmd(c) == /\ i \in 1..N
